@@ -5,7 +5,10 @@ import RV.Base.Proto
     reset                 -> ok            (forget the stored solutions)
     row c1 c2 …           -> ok            (one pattern solution; cell = term token or `-`)
     q <query tokens>      -> v1,v2#row;row;…   (evalQuery on the stored solutions; row = cells joined by `,`)
+    cal t1 t2 …           -> c1 c2 …       (calendar functions on temporal term tokens: dateTime `valid:aware:key:lexcps`,
+                                            date `valid:ord:lexcps`)
   term tokens:  I.<dt>.<int>  D.<m>.<s>  F.<dt>.<m>.<s>  B.0|1  S.<cps>.<langcps>  U.<cps>  N.<cps>   (cps = code points joined by `_`)
+                T.<y>.<mo>.<d>.<h>.<mi>.<s>.<tz minutes|->  (xsd:dateTime)   Y.<y>.<mo>.<d>  (xsd:date)
   query tokens: mod(N|D|R) offset(n|-) limit(n|-) nuser  (-| k (gv i | ga i E | ge E)…)  nproj (pv v | pe v E)…  (0 | 1 E)  nord ((A|D) E)…
   E: v i | c term | + E E | - E E | cmp (lt|gt|eq|ne|le|ge) E E | and E E | agg kind d(0|1) sep(-|s<cps>) (* | E)
   answer cells: Q.<dt>.<num>.<den>.<scale>  B.0|1  S.<cps>.<langcps>  U.<cps>  N.<cps>  -
@@ -44,6 +47,20 @@ def term? (tk : String) : Option Val :=
   | ["N", s] => do
     let s ← cps? s
     pure (some (.bnode s))
+  | ["T", y, mo, d, h, mi, sec, tz] => do
+    let y ← y.toNat?
+    let mo ← mo.toNat?
+    let d ← d.toNat?
+    let h ← h.toNat?
+    let mi ← mi.toNat?
+    let sec ← sec.toNat?
+    let tz ← (if tz = "-" then some none else tz.toInt?.map some)
+    pure (some (.dateTime ⟨y, mo, d, h, mi, sec, tz⟩))
+  | ["Y", y, mo, d] => do
+    let y ← y.toNat?
+    let mo ← mo.toNat?
+    let d ← d.toNat?
+    pure (some (.date ⟨y, mo, d⟩))
   | _ => none
 
 def showVal : Val → String
@@ -53,6 +70,8 @@ def showVal : Val → String
   | some (.num d v sc) => s!"Q.{d.name}.{v.num}.{v.den}.{sc}"
   | some (.bool b) => if b then "B.1" else "B.0"
   | some (.str l g) => s!"S.{showCps l}.{showCps g}"
+  | some (.dateTime f) => s!"T.{f.y}.{f.mo}.{f.d}.{f.h}.{f.mi}.{f.s}." ++ (match f.tz with | none => "-" | some z => toString z)
+  | some (.date f) => s!"Y.{f.y}.{f.mo}.{f.d}"
 
 def aggK? : String → Option AggK
   | "count" => some .count | "sum" => some .sum | "avg" => some .avg | "min" => some .min
@@ -191,11 +210,20 @@ def showRows (q : Query) (rows : List Row) : String :=
   ",".intercalate (pv.map toString) ++ "#" ++
     ";".intercalate (rows.map (fun r => ",".intercalate (pv.map (fun v => showVal (r.get v)))))
 
+def showCal : Val → Option String
+  | some (.dateTime f) => some s!"{if f.valid then 1 else 0}:{if f.aware then 1 else 0}:{f.key}:{showCps f.lex}"
+  | some (.date f) => some s!"{if f.valid then 1 else 0}:{f.ord}:{showCps f.lex}"
+  | _ => none
+
 def step (s : List Row) : List String → List Row × String
   | ["reset"] => ([], "ok")
   | "row" :: cells =>
     match cells.mapM term? with
     | some r => (s ++ [r], "ok")
+    | none => (s, "bad-op")
+  | "cal" :: ts =>
+    match (ts.mapM term?).bind (fun vs => vs.mapM showCal) with
+    | some cs => (s, " ".intercalate cs)
     | none => (s, "bad-op")
   | "q" :: ts =>
     match parseQuery ts with
